@@ -122,6 +122,30 @@ def r1_concrete_tags(ctx):
     # default for a missing IsType table entry is `false` (reject), for mailbox filtering `true` (documented permissive default)
     uo = [t for bi, t in c.calls_to("Option::unwrap_or")]
     ok = len(uo) == 1 and uo[0]["args"][1].get("val") == 0
+    if not ok:
+        # explicit form: `match table.get(row) { Some(set) => set.contains(..), None => <false> }` (possibly in a helper): with the lookup forced to
+        # None every way out must assign the constant false (directly or through copies of a constant-false argument)
+        falsy = set()
+        for _ in range(4):
+            for l, ds in c.defs().items():
+                if l in falsy or not ds:
+                    continue
+                if all(d[1] != "term" and d[2]["rv"]["k"] == "use" and ((d[2]["rv"]["op"].get("c") == "const" and d[2]["rv"]["op"].get("val") == 0 and d[2]["rv"]["op"].get("ty") == "bool")
+                                                                        or op_local(d[2]["rv"]["op"]) in falsy) for d in ds):
+                    falsy.add(l)
+        rets = {0} | {l["i"] for l in c.locals if l.get("inl_ret")}
+        false_ret = set()
+        for bi, si, st in c.stmts():
+            if st["k"] == "assign" and st["p"]["l"] in rets and not st["p"]["pr"] and st["rv"]["k"] == "use":
+                o = st["rv"]["op"]
+                if (o.get("c") == "const" and o.get("val") == 0) or op_local(o) in falsy:
+                    false_ret.add(bi)
+        gets = [(bi, t) for bi, t in c.calls() if (t.get("callee") or "").split("::")[-1] == "get" and t["args"] and
+                flc.mentions_field(flc.canon_op(t["args"][0]) or (0, ()), "executor::Executor", "type_compatibility")]
+        if gets and false_ret:
+            gb, gt = gets[0]
+            bad = explore(c, [gb], avoid=false_ret, want="return", force={("d", gt["dest"]["l"]): 0}, flow=flc)
+            ok = bad is None
     ctx.check(ok, R, c.key + "|default-false", "a pattern type without a table entry rejects (unwrap_or(false))",
               "IsType default for a missing entry is no longer `false`", c.loc(0))
 
